@@ -394,6 +394,8 @@ def own_nodes(fn: Func) -> Iterator[ast.AST]:
 
 def norm(node: ast.AST) -> str:
     """Formatting- and position-independent text of a construct (used in finding keys)."""
+    if node is None:          # e.g. the value of a bare annotation `x: int`
+        return ""
     try:
         return ast.unparse(node)
     except Exception:
